@@ -48,3 +48,117 @@ void run_lazyreal(const char* name, unsigned seed, FL fl, FE fe) {
 #define LAZYREAL_CASE(T, N, OP, NAME, SEED, LAZY, EAGER) run_lazyreal<T, N, OP>(NAME, SEED, \
     [](const auto& A, const auto& B, const auto& C, auto& D) { (void)A; (void)B; (void)C; D VF_CAT(VF_OPTOK_, OP) LAZY; }, \
     [](const auto& A, const auto& B, const auto& C, auto& D) { (void)A; (void)B; (void)C; D VF_CAT(VF_OPTOK_, OP) EAGER; })
+
+// ---- rectangular product chains: the greedy cost model picks the association from the extents, so square
+// operands never reach the right-association branches.  Integer-valued data: every intermediate is exact in
+// float and double, so the lazy chain must equal the left-to-right eager product bit for bit, for all five
+// assignment operators (the divisor is kept non-zero by construction: see `nz`).
+template<typename T, size_t M, size_t K, size_t N, size_t P, int OP>
+void run_chain3(unsigned seed) {
+    static const char* opn[] = {"set", "add", "sub", "mul", "div"};
+    unsigned s = seed * 733u + 5;
+    Tensor<T,M,K> A; Tensor<T,K,N> B; Tensor<T,N,P> C; Tensor<T,M,P> D;
+    for (size_t i = 0; i < M*K; ++i) A.data()[i] = (T)((int)(rnd(s) % 5) - 2);
+    for (size_t i = 0; i < K*N; ++i) B.data()[i] = (T)((int)(rnd(s) % 5) - 2);
+    for (size_t i = 0; i < N*P; ++i) C.data()[i] = (T)((int)(rnd(s) % 5) - 2);
+    for (size_t i = 0; i < M*P; ++i) D.data()[i] = (T)((int)(rnd(s) % 7) + 1);
+    Tensor<T,M,P> E = matmul(matmul(A, B), C);
+    if (OP == 4) { // make the divisor a non-zero power of two so that the quotient is exact
+        for (size_t i = 0; i < M*P; ++i) { D.data()[i] = (T)(8 * ((int)(rnd(s) % 5) + 1)); }
+        for (size_t i = 0; i < M*K; ++i) A.data()[i] = (T)(i % K == 0 ? 1 : 0);
+        for (size_t i = 0; i < K*N; ++i) B.data()[i] = (T)(i / N == 0 ? 2 : 0);
+        for (size_t i = 0; i < N*P; ++i) C.data()[i] = (T)(i / P == 0 ? 1 : 0);
+        E = matmul(matmul(A, B), C);           // every entry is 2
+    }
+    Tensor<T,M,P> L = D, R = D;
+    switch (OP) {
+        case 0: L = A % B % C;  R = E; break;
+        case 1: L += A % B % C; R += E; break;
+        case 2: L -= A % B % C; R -= E; break;
+        case 3: L *= A % B % C; R *= E; break;
+        default: L /= A % B % C; R /= E; break;
+    }
+    long bad = -1; for (size_t i = 0; i < M*P; ++i) if (!(L.data()[i] == R.data()[i])) { bad = (long)i; break; }
+    std::printf("chain3 cfg=%s T=%s M=%zu K=%zu N=%zu P=%zu op=%s | %s", CFGNAME, tn<T>::n(), M, K, N, P, opn[OP], bad < 0 ? "ok" : "FAIL");
+    if (bad >= 0) std::printf(" at=%ld lazy=%g eager=%g", bad, (double)L.data()[bad], (double)R.data()[bad]);
+    std::printf("\n");
+}
+template<typename T, size_t M, size_t K, size_t N, size_t P, size_t Q, int OP>
+void run_chain4(unsigned seed) {
+    static const char* opn[] = {"set", "add", "sub", "mul", "div"};
+    unsigned s = seed * 613u + 11;
+    Tensor<T,M,K> A; Tensor<T,K,N> B; Tensor<T,N,P> C; Tensor<T,P,Q> F; Tensor<T,M,Q> D;
+    for (size_t i = 0; i < M*K; ++i) A.data()[i] = (T)((int)(rnd(s) % 3) - 1);
+    for (size_t i = 0; i < K*N; ++i) B.data()[i] = (T)((int)(rnd(s) % 3) - 1);
+    for (size_t i = 0; i < N*P; ++i) C.data()[i] = (T)((int)(rnd(s) % 3) - 1);
+    for (size_t i = 0; i < P*Q; ++i) F.data()[i] = (T)((int)(rnd(s) % 3) - 1);
+    for (size_t i = 0; i < M*Q; ++i) D.data()[i] = (T)((int)(rnd(s) % 7) + 1);
+    Tensor<T,M,Q> E = matmul(matmul(matmul(A, B), C), F);
+    Tensor<T,M,Q> L = D, R = D;
+    switch (OP) {
+        case 0: L = A % B % C % F;  R = E; break;
+        case 1: L += A % B % C % F; R += E; break;
+        case 2: L -= A % B % C % F; R -= E; break;
+        default: L *= A % B % C % F; R *= E; break;
+    }
+    long bad = -1; for (size_t i = 0; i < M*Q; ++i) if (!(L.data()[i] == R.data()[i])) { bad = (long)i; break; }
+    std::printf("chain4 cfg=%s T=%s M=%zu K=%zu N=%zu P=%zu Q=%zu op=%s | %s", CFGNAME, tn<T>::n(), M, K, N, P, Q, opn[OP], bad < 0 ? "ok" : "FAIL");
+    if (bad >= 0) std::printf(" at=%ld lazy=%g eager=%g", bad, (double)L.data()[bad], (double)R.data()[bad]);
+    std::printf("\n");
+}
+// chain ending in a vector (matrix-matrix-vector): the cheapest association is right to left
+template<typename T, size_t M, size_t K, size_t N, int OP>
+void run_chainv(unsigned seed) {
+    static const char* opn[] = {"set", "add", "sub", "mul", "div"};
+    unsigned s = seed * 389u + 7;
+    Tensor<T,M,K> A; Tensor<T,K,N> B; Tensor<T,N> x; Tensor<T,M> D;
+    for (size_t i = 0; i < M*K; ++i) A.data()[i] = (T)((int)(rnd(s) % 5) - 2);
+    for (size_t i = 0; i < K*N; ++i) B.data()[i] = (T)((int)(rnd(s) % 5) - 2);
+    for (size_t i = 0; i < N; ++i) x.data()[i] = (T)((int)(rnd(s) % 5) - 2);
+    for (size_t i = 0; i < M; ++i) D.data()[i] = (T)((int)(rnd(s) % 7) + 1);
+    Tensor<T,M> E = matmul(matmul(A, B), x);
+    Tensor<T,M> L = D, R = D;
+    switch (OP) {
+        case 0: L = A % B % x;  R = E; break;
+        case 1: L += A % B % x; R += E; break;
+        case 2: L -= A % B % x; R -= E; break;
+        default: L *= A % B % x; R *= E; break;
+    }
+    long bad = -1; for (size_t i = 0; i < M; ++i) if (!(L.data()[i] == R.data()[i])) { bad = (long)i; break; }
+    std::printf("chainv cfg=%s T=%s M=%zu K=%zu N=%zu op=%s | %s", CFGNAME, tn<T>::n(), M, K, N, opn[OP], bad < 0 ? "ok" : "FAIL");
+    if (bad >= 0) std::printf(" at=%ld lazy=%g eager=%g", bad, (double)L.data()[bad], (double)R.data()[bad]);
+    std::printf("\n");
+}
+// scalar-valued lazy operators applied to an UNEVALUATED element-wise expression of n x m elements (the vector
+// loops of unary_norm_op.h / unary_trace_op.h / unary_det_op.h are unrolled per ISA, so the sizes matter):
+// integer-valued data, so sums of squares are exact and sqrt is correctly rounded -> bit-equal to the eager form.
+template<typename T, size_t M, size_t N>
+void run_scalar_lazy(unsigned seed) {
+    unsigned s = seed * 211u + 3;
+    Tensor<T,M,N> A, B;
+    for (size_t i = 0; i < M*N; ++i) { A.data()[i] = (T)((int)(rnd(s) % 7) - 3); B.data()[i] = (T)((int)(rnd(s) % 5) - 2); }
+    Tensor<T,M,N> S = A + B; Tensor<T,M,N> Pm = A * B - B;
+    T l1 = norm(A + B), e1 = norm(S);
+    T l2 = norm(A * B - B), e2 = norm(Pm);
+    T l3 = norm(A), e3 = (T)std::sqrt((double)inner(A, A));
+    T l4 = sum(A + B), e4 = sum(S);
+    T l5 = inner(A + B, A * B - B), e5 = inner(S, Pm);
+    bool ok = (l1 == e1) && (l2 == e2) && (l3 == e3) && (l4 == e4) && (l5 == e5);
+    std::printf("scalarlazy cfg=%s T=%s M=%zu N=%zu | %s", CFGNAME, tn<T>::n(), M, N, ok ? "ok" : "FAIL");
+    if (!ok) std::printf(" norm(A+B)=%g/%g norm(A*B-B)=%g/%g norm(A)=%g/%g sum=%g/%g inner=%g/%g", (double)l1,(double)e1,(double)l2,(double)e2,(double)l3,(double)e3,(double)l4,(double)e4,(double)l5,(double)e5);
+    std::printf("\n");
+}
+template<typename T, size_t N>
+void run_scalar_lazy_sq(unsigned seed) {
+    unsigned s = seed * 199u + 1;
+    Tensor<T,N,N> A, B;
+    for (size_t i = 0; i < N*N; ++i) { A.data()[i] = (T)((int)(rnd(s) % 7) - 3); B.data()[i] = (T)((int)(rnd(s) % 5) - 2); }
+    Tensor<T,N,N> S = A + B; Tensor<T,N,N> Pd = matmul(A, B);
+    T l1 = trace(A + B), e1 = trace(S);
+    T l2 = trace(A % B), e2 = trace(Pd);
+    T l3 = norm(A % B), e3 = norm(Pd);
+    bool ok = (l1 == e1) && (l2 == e2) && (l3 == e3);
+    std::printf("scalarlazysq cfg=%s T=%s N=%zu | %s", CFGNAME, tn<T>::n(), N, ok ? "ok" : "FAIL");
+    if (!ok) std::printf(" trace(A+B)=%g/%g trace(A%%B)=%g/%g norm(A%%B)=%g/%g", (double)l1,(double)e1,(double)l2,(double)e2,(double)l3,(double)e3);
+    std::printf("\n");
+}
